@@ -34,7 +34,7 @@ Base == [ K |-> 1, mach |-> Mach3, arrays |-> 3, maxIngest |-> 2,
           hotCap |-> 30, coldCap |-> 30, hotRate |-> 3, coldRate |-> 2,
           order |-> <<"a", "b">>, obs |-> EmptyFn,
           alg |-> "batch", parts |-> 1, minPer |-> 1, split |-> EmptyFn,
-          extra |-> EmptyFn, plan |-> EmptyFn, advRounds |-> 0, perm |-> {}, canon |-> TRUE ]
+          extra |-> EmptyFn, plan |-> EmptyFn, advRounds |-> 0, perm |-> {}, canon |-> TRUE, seg |-> FALSE ]
 
 (* static plan: every assignment of tasks to machines; est/eft only order  *)
 (* ties, so a fixed est = node id, eft = est + 1 is enough for the model   *)
@@ -100,9 +100,14 @@ FamA3 ==
         al \in {[alg |-> "batch", parts |-> 2, minPer |-> 1], [alg |-> "batch", parts |-> 2, minPer |-> 2],
                 [alg |-> "queue", parts |-> 1, minPer |-> 1]}}
 
+(* ---- family S: pausing and resuming at every step boundary (C11) ---------- *)
+FamS == {[c EXCEPT !.seg = TRUE] :
+           c \in {c \in FamA : c.obs["a"].dur = 1 /\ c.obs["b"].dur = 1 /\ c.obs["b"].est <= 1 /\ c.maxIngest = 2}
+                 \cup {c \in FamB : c.obs["a"].comp[1] = 1 /\ c.coldCap = 6}}
+
 CONSTANT FamilyName
 Fam == CASE FamilyName = "A" -> FamA [] FamilyName = "P" -> FamP [] FamilyName = "W" -> FamW
-               [] FamilyName = "V" -> FamV [] FamilyName = "B" -> FamB [] FamilyName = "BX" -> FamBX [] FamilyName = "A3" -> FamA3
+               [] FamilyName = "V" -> FamV [] FamilyName = "B" -> FamB [] FamilyName = "BX" -> FamBX [] FamilyName = "A3" -> FamA3 [] FamilyName = "S" -> FamS
 MCConfigs == {c \in Fam : FeasibleCfg(c)}
 
 (* ------------------------------ properties -------------------------------- *)
@@ -142,5 +147,21 @@ A_C12 == [][(S'.mon.rows = S.mon.rows + 1) => (Row(S) = TrueRow(S) /\ Tr_C12_row
 A_C15 == [][Tr_C15_flag(S, S')]_vars
 A_C17 == [][Tr_C17_planned(S, S')]_vars
 
+(* pausing / resuming is invisible: the steps taken by start(k)/resume(u)   *)
+(* returning and by resume being called change nothing but where pending    *)
+(* log entries are kept (pending lists vs. log); every other step is a step *)
+(* of the uninterrupted specification by construction                       *)
+CoreOf(T) == [T EXCEPT !.ev = <<>>, !.mon = [rows |-> T.mon.rows], !.queue = NoStop(@), !.now = 0]
+EffLog(T, h) == h \o PendingTagged(T)
+A_C11 == [][(run' = "paused" \/ run = "paused") =>
+              (CoreOf(S') = CoreOf(S) /\ EffLog(S', hlog') = EffLog(S, hlog))]_vars
+(* reproducibility at design level: which tasks an allocation round serves  *)
+(* is a function of the state (no choice left to set-iteration order); the  *)
+(* remaining choice is which free machine of a list is taken first          *)
+I_C10_det ==
+    (run = "running" /\ S.queue # <<>> /\ QHead(S).pid[1] = "AT" /\ cfg.alg \in {"batch", "queue", "plan"})
+    => LET P == Pop(S, 1)
+           pid == QHead(S).pid
+       IN Cardinality({DOMAIN c.prop : c \in ATChoices(P, pid)}) <= 1
 Terminates == <>(run # "running")
 =============================================================================
